@@ -46,7 +46,7 @@ def case_strategy(draw):
     case = {"cfg": cfg}
     case["file"] = draw(S.file_specs(cfg, max_bytes=4096, allow_none=True))
     if case["file"] is not None:
-        case["dest_kind"] = draw(st.sampled_from(["file", "file", "dir", "existing"]))
+        case["dest_kind"] = draw(st.sampled_from(["file", "file", "dir", "existing", "dir_existing"]))
     if draw(st.integers(0, 3)) == 0:
         case["msgs"] = draw(st.lists(S.user_messages(), min_size=0, max_size=3))
     case["pacing"] = draw(S.pacing_scripts())
